@@ -483,6 +483,11 @@ func structFields(t types.Type) []*types.Var {
 
 // zeroObject initialises all fields of the struct object at ref to zero values (recursively for embedded aggregates).
 func (vc *VC) zeroObject(st *State, t types.Type, ref string) {
+	if ts := t.String(); ts == "sync.Mutex" || ts == "sync.RWMutex" {
+		// a mutex allocated on its own (new(sync.Mutex)): its zero value is an unlocked mutex
+		h := vc.hget(st, "held", "(Array Int Bool)")
+		vc.hset(st, "held", "(Array Int Bool)", "(store "+h+" "+ref+" false)")
+	}
 	switch u := t.Underlying().(type) {
 	case *types.Struct:
 		for _, f := range structFields(t) {
